@@ -293,8 +293,9 @@ Definition mstep (s : mst) (t : Z) : option mst :=
           | None => None
           end
       | PA_link i we q =>
+          (* the link store goes to the predecessor wherever it is: still in the list, or already in the bound thread's snapshot *)
           match lane_step s t with
-          | Some s1 => Some (set_mpc s1 t (if we then MW_bound q true k else MW_ret k))
+          | Some s1 => Some (set_mpc (set_snap s1 (link_id (snap s) i)) t (if we then MW_bound q true k else MW_ret k))
           | None => None
           end
       | _ => None
@@ -427,7 +428,7 @@ Definition mostep (s : mst) (t : Z) : option mst :=
       match pcs (lane s) t with
       | PA_link i false q =>
           match lane_step s t with
-          | Some s1 => Some (set_mpc s1 t (MW_bound (push_qos s q) false k))
+          | Some s1 => Some (set_mpc (set_snap s1 (link_id (snap s) i)) t (MW_bound (push_qos s q) false k))
           | None => None
           end
       | _ => None
